@@ -1546,11 +1546,12 @@ def run_support_purchase(case):
         out.label("support", "signed" if case["sig"] else "unsigned", *("has_" + k for k in f))
         out.nontrivial = bool(case["sig"]) and bool(f.get("comment"))
         exp = {"comment": f.get("comment", ""), "emoji": f.get("emoji", "")}
-        compare(out, "support-readback", exp, {"comment": _rd(lambda: sup.comment), "emoji": _rd(lambda: sup.emoji)})
+        bad = compare(out, "support-readback", exp,
+                      {"comment": _rd(lambda: sup.comment), "emoji": _rd(lambda: sup.emoji)})
         dec, payload = check_envelope_roundtrip(out, Support, sup, case["sig"], "support")
         if dec is not None:
             compare(out, "support-decoded-readback", exp,
-                    {"comment": _rd(lambda: dec.comment), "emoji": _rd(lambda: dec.emoji)})
+                    {"comment": _rd(lambda: dec.comment), "emoji": _rd(lambda: dec.emoji)}, skip=bad)
         if payload is not None:
             pb = SupportMessage.FromString(payload)
             compare(out, "support-plain", exp, {"comment": pb.comment, "emoji": pb.emoji})
@@ -1571,8 +1572,8 @@ def run_support_purchase(case):
         pur = Purchase()
         pur.claim_hash = bytes.fromhex(cid)[::-1]
     exp = {"claim_id": cid or "", "claim_hash": bytes.fromhex(cid or "")[::-1].hex()}
-    compare(out, "purchase-readback", exp, {"claim_id": _rd(lambda: pur.claim_id),
-                                            "claim_hash": _rd(lambda: _hexof(pur.claim_hash))})
+    bad = compare(out, "purchase-readback", exp, {"claim_id": _rd(lambda: pur.claim_id),
+                                                  "claim_hash": _rd(lambda: _hexof(pur.claim_hash))})
     data = pur.to_bytes()
     out.check(bytes(pur) == data and len(pur) == len(data), "purchase-bytes-len-dunder", "")
     if not out.check(data[:1] == b"P", "purchase-start-byte", data[:1].hex()):
@@ -1586,7 +1587,7 @@ def run_support_purchase(case):
     out.check(dec.message == pur.message, "purchase-roundtrip-message-differs", "")
     out.check(dec.to_bytes() == data, "purchase-reserialise-differs", "")
     compare(out, "purchase-decoded-readback", exp, {"claim_id": _rd(lambda: dec.claim_id),
-                                                    "claim_hash": _rd(lambda: _hexof(dec.claim_hash))})
+                                                    "claim_hash": _rd(lambda: _hexof(dec.claim_hash))}, skip=bad)
     pb = PurchaseMessage.FromString(data[1:])
     compare(out, "purchase-plain", exp, {"claim_hash": pb.claim_hash.hex()})
     return out
